@@ -34,7 +34,7 @@ PY
 done
 code=0
 for p in "${pids[@]}"; do wait "$p" || code=$?; done
-python3 - "$WORK" "$ID" "$RUNS" "$JOBS" <<'PY'
+python3 - "$WORK" "$ID" "$RUNS" "$JOBS" "${VERIF_FUZZ_SECS:-600}" <<'PY'
 import glob, json, re, sys
 w, pid, runs, jobs = sys.argv[1], sys.argv[2], int(sys.argv[3]), int(sys.argv[4])
 tot = {"cases": 0, "nontrivial": 0, "known_hits": 0}
@@ -46,7 +46,7 @@ for f in glob.glob(w + "/stats*.json"):
 cov = 0
 for f in glob.glob(w + "/log*.txt"):
     for m in re.finditer(r"cov: (\d+)", open(f, errors="replace").read()): cov = max(cov, int(m.group(1)))
-tot.update({"engine": "libFuzzer (cargo-fuzz), bytes -> proptest pass-through RNG -> the property's strategy", "runs_per_job": runs, "jobs": jobs, "edge_coverage_max": cov,
+tot.update({"engine": "libFuzzer (cargo-fuzz), bytes -> proptest pass-through RNG -> the property's strategy", "runs_per_job_max": runs, "seconds_per_job_max": int(sys.argv[5]), "jobs": jobs, "edge_coverage_max": cov,
             "corpus_units": sum(len(glob.glob(w + f"/corpus{j}/*")) for j in range(1, jobs + 1))})
 json.dump(tot, open(w + "/summary.json", "w"))
 print(f"[fuzz {pid}] " + json.dumps(tot))
